@@ -2,7 +2,7 @@
    Only statements; proofs are in Proofs/CrashProof.v.  Model/Crash.v is what is durable of a key between the filesystem
    steps of the repaired code; props/c11.py kills the real gateway at every verifhook site and compares. *)
 From Coq Require Import List Arith Bool.
-From VGW Require Import Model.Crash Proofs.CrashProof Model.CrashVersions Proofs.CrashVersionsProof.
+From VGW Require Import Model.Crash Proofs.CrashProof Model.CrashVersions Proofs.CrashVersionsProof Model.CrashDirObj Proofs.CrashDirObjProof.
 Import ListNotations.
 
 (* a request killed after any number k of its steps leaves the key in its complete previous state or in the complete new
@@ -54,6 +54,26 @@ Theorem C11_marker_first_order_refuted :
   ~ In (1, 7) (shown (run_killed (delete_steps_old 2) s 2)) /\ reads (run_killed (delete_steps_old 2) s 2) = None.
 Proof. exact old_order_loses_version. Qed.
 Print Assumptions C11_marker_first_order_refuted.
+
+(* directory objects (keys ending in "/") are written onto the directory itself, attribute by attribute. A first upload is all or
+   nothing: the ETag attribute, written after the user metadata, is what makes the directory an object *)
+Theorem C11_directory_object_first_upload_atomic : forall new n,
+  let s0 := {| is_object := false; umeta := [] |} in
+  shows (killed_after s0 new n) = None \/ killed_after s0 new n = fold_left do_dwrite (upload_writes s0 new) s0.
+Proof. exact first_upload_atomic. Qed.
+Print Assumptions C11_directory_object_first_upload_atomic.
+
+(* an upload over an existing directory object is not (known finding c11:state:dirobj-overwrite): the witness is a kill point after
+   which the key is listed with neither the old nor the new user metadata *)
+Theorem C11_directory_object_overwrite_refuted :
+  let s0 := {| is_object := true; umeta := [(1, 10); (2, 20)] |} in
+  let new := [(1, 11); (3, 30)] in
+  exists n, match shows (killed_after s0 new n) with
+            | Some m => same_meta m (umeta s0) = false /\ same_meta m new = false
+            | None => False
+            end.
+Proof. exact overwrite_not_atomic. Qed.
+Print Assumptions C11_directory_object_overwrite_refuted.
 
 Example C11_example :
   let s := {| dentry := Some 1; leftovers := []; bucket_exists := true |} in
